@@ -29,3 +29,5 @@ type ERRFLOW = core.ERRFLOW
 type NOREACH = core.NOREACH
 
 type TABLE = core.TABLE
+
+type ITER = core.ITER
